@@ -422,6 +422,7 @@ extern "C" {
     if (!r.inRegion || r.running < 0) return;
     VThread &t = *r.pool[r.running];
     if (r.lockOwner != t.id || !t.criticalDepth) { fail("omp critical end without start"); return; }
+    visibleOp();                 // the owner may be preempted while it still holds the lock: others must wait
     --t.criticalDepth;
     r.lockOwner = -1;
     for (int k = 0; k < r.T; ++k) {
